@@ -5,7 +5,7 @@ use crate::core::{Acc, Ctx};
 use crate::encspace::{enumerate, EncCase};
 use serde_json::{json, Value};
 
-pub const RULE: &str = "every case of the C01 space (a) all mono sequences over Σ(bps) up to length L for bps 1..32, (b) all stereo PCM-frame sequences over Σ5×Σ5 × mid-side × correlation mode, (c) 3..8 channels over {MIN,0,MAX}, (d) 16-sample carrier + every tail over Σ × max-LPC, (e) every option vector with ≤d deviations × small inputs, (f) sample-rate codings, (g) writer × reader front-ends, (h) signal-family grid (incl. period-32/period-12 signals that drive the encoder to LPC orders up to 32, and 12/20-bit depths) on block sizes 16/192/576/4096 (thorough + 17, 100, 1000, 1152, 65535), 1/2 channels everywhere and 3/8 channels on the small blocks, (j) channel-heterogeneous inputs: every assignment of 8 per-channel traits (noise, 4 / 1 wasted bits, constant, silence, ramp, shared noise ± offset, shared noise) to 2 channels × 4 correlation modes and of 4 traits to 3 channels, depths 8/16/24, blocks 16/192, (k) the presets Options::fast() and Options::best() taken whole × signal families × lengths around one and two blocks × all four writers, (l) steep low-pass multi-sine signals that drive the LPC quantiser to shift 0 and into its negative-shift branch; a case is one (writer, options, signal parameters, PCM) tuple; distinct outcomes = distinct (set, result class, frame-shape) keys";
+pub const RULE: &str = "every case of the C01 space (a) all mono sequences over Σ(bps) up to length L for bps 1..32, (b) all stereo PCM-frame sequences over Σ5×Σ5 × mid-side × correlation mode, (c) 3..8 channels over {MIN,0,MAX}, (d) 16-sample carrier + every tail over Σ × max-LPC, (e) every option vector with ≤d deviations × small inputs, (f) sample-rate codings, (g) writer × reader front-ends, (h) signal-family grid (incl. period-32/period-12 signals that drive the encoder to LPC orders up to 32, and 12/20-bit depths) on block sizes 16/192/576/4096 (thorough + 17, 100, 1000, 1152, 65535), 1/2 channels everywhere and 3/8 channels on the small blocks, (j) channel-heterogeneous inputs: every assignment of 8 per-channel traits (noise, 4 / 1 wasted bits, constant, silence, ramp, shared noise ± offset, shared noise) to 2 channels × 4 correlation modes and of 4 traits to 3 channels, depths 8/16/24, blocks 16/192, (k) the presets Options::fast() and Options::best() taken whole × signal families × lengths around one and two blocks × all four writers, (l) steep low-pass multi-sine signals that drive the LPC quantiser to shift 0 and into its negative-shift branch; (p) the path-based front-ends on real scratch files (open(path) of the three readers incl. a seek, FrameIterator::open, verify(path), BlockList::open, metadata::info/blocks/block/blocks_of) against their in-memory counterparts, 5 formats × 4 lengths × 3 header shapes; a case is one (writer, options, signal parameters, PCM) tuple; distinct outcomes = distinct (set, result class, frame-shape) keys";
 pub const ASSUMPTIONS: &[&str] = &["sample values outside Σ(bps) and the signal-family grid are not explored", "the crate's own decoder is the oracle here; C02 judges the same files with the independent decoder"];
 pub fn bounds(quick: bool) -> Value {
     if quick {
@@ -44,7 +44,148 @@ pub fn check_case(c: &EncCase, readers: &[ReaderKind]) -> (String, Option<(Strin
     ("ok".into(), None)
 }
 
+
+/// The path-based front-ends (`open(path)` of the three readers and of the frame iterator, `verify(path)`, `BlockList::open`,
+/// `metadata::info / blocks / block / blocks_of`) on real scratch files: each must agree with its in-memory counterpart.
+fn path_case(bytes: &[u8], pcm: &[i32], sig: &codec::Sig) -> Result<(), (String, String)> {
+    use flac_codec::byteorder::{BigEndian, LittleEndian};
+    use flac_codec::decode::{verify, verify_reader, FlacByteReader, FlacChannelReader, FlacSampleReader};
+    use flac_codec::metadata::{self, BlockList, Streaminfo, VorbisComment};
+    use std::io::Read;
+    let dir = std::path::Path::new("/verif/target/tmp").join(format!("c01-path-{}", std::process::id()));
+    std::fs::create_dir_all(&dir).map_err(|e| ("machinery".to_string(), e.to_string()))?;
+    let path = dir.join("in.flac");
+    std::fs::write(&path, bytes).map_err(|e| ("machinery".to_string(), e.to_string()))?;
+    let p = path.clone();
+    let want_bytes_le = codec::pcm_bytes(pcm, sig.bps, false);
+    let want_bytes_be = codec::pcm_bytes(pcm, sig.bps, true);
+    let bytes2 = bytes.to_vec();
+    let pcm2 = pcm.to_vec();
+    let ch = sig.ch as usize;
+    let r = crate::core::guarded(move || -> Result<(), (String, String)> {
+        let e = |w: &str, x: flac_codec::Error| (format!("path|{w}|err"), format!("{w} fails on a file its reader counterpart decodes: {x:?}"));
+        let mut got = Vec::new();
+        FlacSampleReader::open(&p).map_err(|x| e("FlacSampleReader::open", x))?.read_to_end(&mut got).map_err(|x| e("FlacSampleReader::open", x))?;
+        if got != pcm2 {
+            return Err(("path|FlacSampleReader::open|pcm".into(), "FlacSampleReader::open decodes different samples".into()));
+        }
+        let mut b = Vec::new();
+        FlacByteReader::open(&p, LittleEndian).map_err(|x| e("FlacByteReader::open", x))?.read_to_end(&mut b).map_err(|x| ("path|FlacByteReader::open|io".to_string(), x.to_string()))?;
+        if b != want_bytes_le {
+            return Err(("path|FlacByteReader::open|bytes".into(), "FlacByteReader::open(LittleEndian) returns different bytes".into()));
+        }
+        b.clear();
+        FlacByteReader::open(&p, BigEndian).map_err(|x| e("FlacByteReader::open", x))?.read_to_end(&mut b).map_err(|x| ("path|FlacByteReader::open|io".to_string(), x.to_string()))?;
+        if b != want_bytes_be {
+            return Err(("path|FlacByteReader::open|bytes-be".into(), "FlacByteReader::open(BigEndian) returns different bytes".into()));
+        }
+        let mut cr = FlacChannelReader::open(&p).map_err(|x| e("FlacChannelReader::open", x))?;
+        let mut inter = Vec::new();
+        loop {
+            let buf = cr.fill_buf().map_err(|x| e("FlacChannelReader::open", x))?;
+            let n = buf.first().map(|c| c.len()).unwrap_or(0);
+            if n == 0 {
+                break;
+            }
+            for i in 0..n {
+                for c in 0..ch {
+                    inter.push(buf[c][i]);
+                }
+            }
+            drop(buf);
+            cr.consume(n);
+        }
+        if inter != pcm2 {
+            return Err(("path|FlacChannelReader::open|pcm".into(), "FlacChannelReader::open decodes different samples".into()));
+        }
+        // seeking through the path-based reader (it is the seekable flavour)
+        let mut sr = FlacSampleReader::open(&p).map_err(|x| e("FlacSampleReader::open", x))?;
+        let frames = pcm2.len() / ch;
+        if frames > 3 {
+            sr.seek((frames / 2) as u64).map_err(|x| e("FlacSampleReader::open + seek", x))?;
+            let mut tail = Vec::new();
+            sr.read_to_end(&mut tail).map_err(|x| e("FlacSampleReader::open + seek", x))?;
+            if tail != pcm2[(frames / 2) * ch..] {
+                return Err(("path|FlacSampleReader::open|seek".into(), "seek on the path-based reader lands elsewhere".into()));
+            }
+        }
+        let v1 = verify(&p).map_err(|x| e("verify", x))?;
+        let v2 = verify_reader(&bytes2[..]).map_err(|x| e("verify_reader", x))?;
+        if v1 != v2 {
+            return Err(("path|verify".into(), format!("verify(path) = {v1:?}, verify_reader = {v2:?}")));
+        }
+        let n1 = flac_codec::stream::FrameIterator::open(&p).map_err(|x| e("FrameIterator::open", x))?.map(|f| f.map(|(fr, off)| (off, u16::from(fr.header.block_size)))).collect::<Result<Vec<_>, _>>().map_err(|x| e("FrameIterator::open", x))?;
+        let n2 = flac_codec::stream::FrameIterator::new(&bytes2[..]).map_err(|x| e("FrameIterator::new", x))?.map(|f| f.map(|(fr, off)| (off, u16::from(fr.header.block_size)))).collect::<Result<Vec<_>, _>>().map_err(|x| e("FrameIterator::new", x))?;
+        if n1 != n2 {
+            return Err(("path|FrameIterator::open".into(), "FrameIterator::open yields different frames".into()));
+        }
+        let l1 = BlockList::open(&p).map_err(|x| e("BlockList::open", x))?;
+        let l2 = BlockList::read(&bytes2[..]).map_err(|x| e("BlockList::read", x))?;
+        if l1.blocks().collect::<Vec<_>>() != l2.blocks().collect::<Vec<_>>() {
+            return Err(("path|BlockList::open".into(), "BlockList::open differs from BlockList::read".into()));
+        }
+        if metadata::info(&p).map_err(|x| e("metadata::info", x))? != metadata::read_info(&bytes2[..]).map_err(|x| e("read_info", x))? {
+            return Err(("path|metadata::info".into(), "metadata::info(path) differs from read_info".into()));
+        }
+        let b1 = metadata::blocks(&p).map_err(|x| ("path|metadata::blocks|io".to_string(), x.to_string()))?.collect::<Result<Vec<_>, _>>().map_err(|x| e("metadata::blocks", x))?;
+        let b2 = metadata::read_blocks(&bytes2[..]).collect::<Result<Vec<_>, _>>().map_err(|x| e("read_blocks", x))?;
+        if b1 != b2 {
+            return Err(("path|metadata::blocks".into(), "metadata::blocks(path) differs from read_blocks".into()));
+        }
+        if metadata::block::<_, Streaminfo>(&p).map_err(|x| e("metadata::block", x))? != metadata::read_block::<_, Streaminfo>(&bytes2[..]).map_err(|x| e("read_block", x))? {
+            return Err(("path|metadata::block".into(), "metadata::block::<Streaminfo>(path) differs from read_block".into()));
+        }
+        if metadata::block::<_, VorbisComment>(&p).map_err(|x| e("metadata::block", x))? != l2.get::<VorbisComment>().cloned() {
+            return Err(("path|metadata::block".into(), "metadata::block::<VorbisComment>(path) differs from the block list".into()));
+        }
+        let a1 = metadata::blocks_of::<_, flac_codec::metadata::Application>(&p).collect::<Result<Vec<_>, _>>().map_err(|x| e("metadata::blocks_of", x))?;
+        let a2: Vec<_> = l2.get_all::<flac_codec::metadata::Application>().cloned().collect();
+        if a1 != a2 {
+            return Err(("path|metadata::blocks_of".into(), "metadata::blocks_of::<Application>(path) differs from the block list".into()));
+        }
+        Ok(())
+    });
+    let _ = std::fs::remove_dir_all(&dir);
+    match r {
+        Ok(x) => x,
+        Err(p) => Err((format!("path|panic@{}", crate::core::panic_loc(&p)), format!("panic: {p}"))),
+    }
+}
+
+fn paths(ctx: &Ctx, acc: &mut Acc) {
+    let mut n = 0u64;
+    for sig in [codec::Sig { rate: 44100, bps: 16, ch: 2 }, codec::Sig { rate: 8000, bps: 8, ch: 1 }, codec::Sig { rate: 96000, bps: 24, ch: 3 }, codec::Sig { rate: 48000, bps: 32, ch: 8 }, codec::Sig { rate: 22050, bps: 12, ch: 2 }] {
+        for frames in [1usize, 16, 37, 70] {
+            for (declared, seek, rich) in [(true, codec::Seek::Frames(1), false), (false, codec::Seek::Off, false), (true, codec::Seek::Default, true)] {
+                n += 1;
+                if !ctx.mine() {
+                    continue;
+                }
+                let pcm = crate::corpus::ident_pcm(sig.ch, sig.bps, frames);
+                let opt = Opt { declared, seek, ..Opt::base16() };
+                let Ok(mut bytes) = encode(codec::WriterKind::Sample, &opt, &sig, &pcm) else { continue };
+                if rich {
+                    bytes = crate::corpus::rich_metadata(&bytes, true);
+                }
+                acc.states += 1;
+                acc.executions += 1;
+                acc.transitions += 12;
+                match path_case(&bytes, &pcm, &sig) {
+                    Ok(()) => acc.outcome(format!("p:ok:ch{}:bps{}", sig.ch, sig.bps)),
+                    Err((c, d)) if c == "machinery" => acc.notes.push(format!("machinery: path case: {d}")),
+                    Err((c, d)) => {
+                        acc.outcome("p:DIFF".to_string());
+                        acc.violation(format!("C01|{c}"), format!("{}ch/{}bit, {frames} PCM frames: {d}", sig.ch, sig.bps), json!({"kind":"path-frontends","rate":sig.rate,"bps":sig.bps,"ch":sig.ch,"frames":frames,"opt":opt.to_json(),"rich":rich}));
+                    }
+                }
+            }
+        }
+    }
+    let _ = n;
+}
+
 pub fn run(ctx: &Ctx, acc: &mut Acc) {
+    paths(ctx, acc);
     let only = [ReaderKind::SampleFill];
     enumerate(ctx, "abcdefghjkl", &mut |c: &EncCase| {
         let readers: &[ReaderKind] = if c.set == "g" { &READERS } else { &only };
@@ -66,6 +207,16 @@ pub fn run(ctx: &Ctx, acc: &mut Acc) {
 }
 
 pub fn replay(v: &Value) -> Option<(bool, String)> {
+    if v["kind"] == "path-frontends" {
+        let sig = codec::sig_from(v);
+        let pcm = crate::corpus::ident_pcm(sig.ch, sig.bps, v["frames"].as_u64()? as usize);
+        let mut bytes = encode(codec::WriterKind::Sample, &Opt::from_json(&v["opt"]), &sig, &pcm).ok()?;
+        if v["rich"].as_bool().unwrap_or(false) {
+            bytes = crate::corpus::rich_metadata(&bytes, true);
+        }
+        let r = path_case(&bytes, &pcm, &sig);
+        return Some((r.is_err(), format!("{r:?}")));
+    }
     if v["kind"] != "enc-roundtrip" {
         return None;
     }
